@@ -114,6 +114,9 @@ def source_of(e, use, binds, fn, assigns):
             it = b[0]
             sel = None
             inner = it
+            if isinstance(it, ast.Call) and (call_name(it) or "").rsplit(".", 1)[-1] == "islice" and it.args:
+                it = it.args[0]           # a positional window over the same collection
+                inner = it
             if isinstance(it, ast.Call) and call_name(it) in ("largest", "smallest", "sorted", "reversed", "list", "iter"):
                 sel = call_name(it)
                 kws = {k.arg: norm(k.value, 40) for k in it.keywords if k.arg in ("n",)}
